@@ -321,6 +321,58 @@ func runC16(tier string) int {
 			r.NotExhaustive("layouts of program " + prog.name + " not completed")
 		}
 	}
+	// the size dimension: constructs after K lines, for every K <= 300 and around every power of two up to 2^17
+	var ks []int
+	for k := 0; k <= 300; k++ {
+		ks = append(ks, k)
+	}
+	maxPow := 17
+	if tier == "thorough" {
+		maxPow = 20
+		for k := 301; k <= 3000; k++ {
+			ks = append(ks, k)
+		}
+	}
+	for p := 9; p <= maxPow; p++ {
+		ks = append(ks, 1<<p-1, 1<<p, 1<<p+1)
+	}
+	farDone := r.Parallel(uint64(len(ks)), func(w int, idx uint64) {
+		k := ks[idx]
+		src := strings.Repeat("\n", k) + "script S {\n\tcmdA(1)\n\tif (flag(F)) {\n\t\tcmdB\n\t}\n}\nraw `\nrawx\n`\ntext T {\n\t\"tt\"\n}\n"
+		// [first, last] line of the construct each output line belongs to
+		want := map[string][2]int{"\tcmdA 1": {k + 2, k + 2}, "\tgoto_if_set F, S_1": {k + 3, k + 3}, "\tcmdB": {k + 4, k + 4}, "rawx": {k + 8, k + 8}, "\t.string \"tt$\"": {k + 10, k + 12}}
+		on := comp.Opts{Optimize: false, LineMarkers: true, Path: "far.pory"}
+		res := comp.Compile(src, on)
+		r.Add("evaluations", 1)
+		r.Add("nontrivial", 1)
+		r.Add("far_line_programs", 1)
+		if res.Err != nil || res.Panic != "" {
+			r.Report(harness.Violation{Sig: "C16:far:rejected", Summary: fmt.Sprintf("program after %d blank lines rejected: %v", k, res.Err), Replay: map[string]interface{}{"blank_lines": k}})
+			return
+		}
+		lines := strings.Split(res.Out, "\n")
+		found := 0
+		for i, l := range lines {
+			m := markerRe.FindStringSubmatch(l)
+			if m == nil || i+1 >= len(lines) {
+				continue
+			}
+			if wl, ok := want[lines[i+1]]; ok {
+				found++
+				var ln int
+				fmt.Sscan(m[1], &ln)
+				if ln < wl[0] || ln > wl[1] {
+					r.Report(harness.Violation{Sig: "C16:far:wrong-line", Summary: fmt.Sprintf("after %d blank lines: marker %q precedes %q, which is written on lines %d..%d", k, l, lines[i+1], wl[0], wl[1]), Replay: map[string]interface{}{"blank_lines": k, "output": clip(res.Out, 2000)}})
+				}
+			}
+		}
+		if found != len(want) {
+			r.Report(harness.Violation{Sig: "C16:far:markers-missing", Summary: fmt.Sprintf("after %d blank lines: %d of %d expected marker positions found", k, found, len(want)), Replay: map[string]interface{}{"blank_lines": k, "output": clip(res.Out, 2000)}})
+		}
+	})
+	if !farDone {
+		r.NotExhaustive("far line programs not completed")
+	}
 	if n := r.Get("markers_before_unknown_lines"); n > 0 {
 		r.NotExhaustive(fmt.Sprintf("%d markers precede output lines the corpus has no construct for", n))
 		fmt.Printf("HARNESS-NOTE: property=C16 %d markers precede output lines the corpus does not map to a construct\n", n)
@@ -330,7 +382,7 @@ func runC16(tier string) int {
 	r.Assume("'the line on which the construct was written' is read as any line of the construct's source extent: the command, the label, the operand test incl. its comparison, the switch header, the case, the map-script entry head, the step / item, the whole text/movement/mart statement for the marker at its label, the enclosing command for hoisted text and moves() data; a raw line's own source line; in addition the marker in front of the first line of a multi-line text must not name a line after the one its first part is written on (the following lines of the text are counted from it)",
 		"string literals and raw blocks are single tokens (their inner layout is fixed)")
 	return r.Finish(r.Get("evaluations"), r.Get("nontrivial"),
-		"8 corpus programs covering every marker-emitting construct with unique names (incl. raw blocks whose lines hold a lone carriage return, a CRLF line end and a multi-byte character) x {default, one token per line, all on one line} + every layout obtained from the default by inserting <= k extras (line break, blank line, '#' comment, '//' comment line) at any token gaps; each layout compiled with lm on / off / on without a path; non-trivial = the source has >= 2 lines")
+		"8 corpus programs covering every marker-emitting construct with unique names (incl. raw blocks whose lines hold a lone carriage return, a CRLF line end and a multi-byte character) x {default, one token per line, all on one line} + every layout obtained from the default by inserting <= k extras (line break, blank line, '#' comment, '//' comment line) at any token gaps; each layout compiled with lm on / off / on without a path; plus one program placed after K blank lines for every K <= 300 (thorough 3000) and around every power of two up to 2^17 (thorough 2^20); non-trivial = the source has >= 2 lines")
 }
 
 func tagKind(tag string) string { return strings.TrimRight(tag, "0123456789") }
